@@ -1,11 +1,11 @@
-\* thorough: 3 nodes, kinds that write, atomic read-write pairs
+\* thorough: 3 nodes, three tune2fs-like nodes (start, stop), one crash, atomic read-write pairs
 SPECIFICATION Spec
 CONSTANTS
   Nodes = {1, 2, 3}
   Seqs = {1, 2, 3}
-  KindSet = {"rw", "fsck", "clear"}
-  RwPolls = {0, 1}
-  FsckPolls = {0, 1}
+  KindSet = {"rw"}
+  RwPolls = {0}
+  FsckPolls = {0}
   MinIval = 1
   Upd = 3
   IvalSet = {1}
